@@ -120,6 +120,42 @@ def check_unicode(n1, n2):
     return out
 
 
+def check_opcode_dict(edit, read_first):
+    """the service actions of an OpCode are the mapping supplied at construction: editing the caller's dictionary afterwards (before or
+    after the enumeration was first read) changes nothing"""
+    from pyscsi.pyscsi.scsi_opcode import OpCode
+    d = {"READ_KEYS": 0, "READ_RESERVATION": 1, "REPORT_CAPABILITIES": 2}
+    want = dict(d)
+    op = OpCode("PERSISTENT_RESERVE_IN", 0x5E, dict(d) if edit == "none" else d)
+    if read_first:
+        op.serviceaction.keys
+    if edit == "add":
+        d["READ_FULL_STATUS"] = 3
+    elif edit == "delete":
+        del d["READ_KEYS"]
+    elif edit == "change":
+        d["READ_KEYS"] = 9
+    elif edit == "clear":
+        d.clear()
+    out = []
+    e = op.serviceaction
+    where = "OpCode built from a dictionary that the caller %s afterwards (%s the first read of .serviceaction)" % (
+        {"add": "extended", "delete": "shortened", "change": "changed", "clear": "emptied", "none": "left alone"}[edit], "after" if read_first else "before")
+    if sorted(e.keys) != sorted(want):
+        out.append(("opcode_dict/names", "%s: names %r, supplied %r" % (where, sorted(e.keys), sorted(want))))
+    for k, v in want.items():
+        if getattr(e, k, "<missing>") != v:
+            out.append(("opcode_dict/value", "%s: .%s is %r, supplied %r" % (where, k, getattr(e, k, "<missing>"), v)))
+        elif e[v] != k:
+            out.append(("opcode_dict/reverse", "%s: reverse lookup of %r gives %r" % (where, v, e[v])))
+    try:
+        e.add("READ_KEYS", 5)
+        out.append(("opcode_dict/readd", "%s: adding the supplied name READ_KEYS again was accepted" % where))
+    except KeyError:
+        pass
+    return out
+
+
 def check_keys_alias(shape):
     """what `keys` hands out belongs to the caller: sorting, emptying or extending it, or walking it while adding / removing, leaves
     the enumeration agreeing with the dict that underwent the same operations"""
@@ -325,6 +361,8 @@ def run_case(case):
         return check_unicode(case[1], case[2])
     if case[0] == "keys_alias":
         return check_keys_alias(case[1])
+    if case[0] == "opcode_dict":
+        return check_opcode_dict(case[1], case[2])
     idx, hist, nv = case
     vals = values(nv)
     enums, models, v = build(INITS[idx], [tuple(o) for o in hist], vals)
@@ -352,6 +390,16 @@ def run_partition(part, tier, seed):
                     for k, w in v:
                         acc.violation(k, w, case)
                     acc.outcome((tuple(case), tuple(k for k, _ in v)))
+        for edit in ("none", "add", "delete", "change", "clear"):
+            for read_first in (False, True):
+                case = ["opcode_dict", edit, read_first]
+                acc.case(case, nontrivial=True, key=tuple(case))
+                v = check_opcode_dict(edit, read_first)
+                acc.transitions += 3
+                acc.traces += 1
+                for k, w in v:
+                    acc.violation(k, w, case)
+                acc.outcome((tuple(case), tuple(k for k, _ in v)))
         for shape in ("sorted", "cleared", "extended", "walk_remove", "walk_add", "held"):
             case = ["keys_alias", shape]
             acc.case(case, nontrivial=True, key=tuple(case))
